@@ -12,7 +12,7 @@ and from C05's data-movement table; `exec` is inlined with a fresh activation; `
 analysed on the loop-invariant weakening of the state (cells changed by the body become unknown)."""
 import os, re, glob
 from .masm import Module, MasmError, Undecided
-from . import rules_c05, userdocs
+from . import rules_c05, userdocs, bvexec, hashref
 
 LEVEL = "other"
 DIR = "/repo/stdlib/asm/crypto/hashes"
@@ -237,8 +237,98 @@ def r1_locals(ctx, F):
     ctx.floor("local-reads-analysed", total_reads, 100)
 
 
+# ---- R2: the fixed-length hash procedures equal the reference functions ---------------------------------------------------
+HASH_PROCS = [
+    # (module, procedure, number of input words, reference, what)
+    ("sha256", "hash_2to1", 16, lambda c, w: hashref.sha256(c, w), "SHA-256 of the 64-byte message m0..m15 (big-endian words)"),
+    ("sha256", "hash_1to1", 8, lambda c, w: hashref.sha256(c, w), "SHA-256 of the 32-byte message m0..m7 (big-endian words)"),
+    ("blake3", "hash_2to1", 16, lambda c, w: hashref.blake3(c, w), "BLAKE3 of the 64-byte message (little-endian words)"),
+    ("blake3", "hash_1to1", 8, lambda c, w: hashref.blake3(c, w), "BLAKE3 of the 32-byte message (little-endian words)"),
+    ("keccak256", "hash", 16, lambda c, w: hashref.keccak256_64(c, w), "Keccak-256 of 64 bytes (eight little-endian lanes as [high, low] words)"),
+]
+
+
+def r2_reference(ctx, F):
+    import sys
+    sys.setrecursionlimit(20000)
+    n_ok = 0
+    for mod, proc, nin, ref, what in HASH_PROCS:
+        path = os.path.join(DIR, mod + ".masm")
+        key = "%s::%s" % (mod, proc)
+        ctx.inst(key=key, nontrivial=True)
+        rel = path.replace("/repo/", "")
+        try:
+            M = Module(path)
+        except (MasmError, OSError) as e:
+            ctx.violation("UNANALYSABLE|%s" % key, rel, str(e)[:200])
+            continue
+        if proc not in M.procs or not M.procs[proc].exported:
+            ctx.violation("hash-procedure-missing|%s" % key, rel, "exported procedure %s not found" % proc)
+            continue
+        loc = "%s:%d" % (rel, M.procs[proc].line)
+        c = bvexec.Ctx()
+        inputs = [c.input_word("m%d" % i) for i in range(nin)]
+        X = bvexec.Exec(M, c, rules_c05.family_expected)
+        stack = list(inputs) + [("below", i) for i in range(24)]
+        try:
+            X.run(proc, stack)
+        except (Undecided, MasmError) as e:
+            ctx.violation("UNANALYSABLE|%s" % key, loc, str(e)[:300])
+            continue
+        got = stack[:8]
+        want = ref(c, inputs)
+        bad = [i for i in range(8) if not (isinstance(got[i], bvexec.BV) and got[i] == want[i])]
+        rest_ok = stack[8:16] == [("below", i) for i in range(8)]
+        ok = not bad and rest_ok
+        ctx.oblig(ok)
+        ctx.sample({"procedure": key, "instructions_interpreted": X.steps, "uninterpreted_sums": c.stats["sums"], "cut_points": c.stats["cuts"], "atoms": c.n, "verdict": "equal to the reference for all inputs" if ok else "differs"})
+        if ok:
+            n_ok += 1
+            continue
+        if bad and all(isinstance(got[i], bvexec.BV) for i in bad):
+            # the canonical forms differ: confirm with a witness input (evaluating the two extracted formulas), otherwise the
+            # difference may be one of representation only (cut points) and nothing is claimed
+            import random
+            rnd = random.Random(20240917)
+            witness = None
+            for trial in range(6):
+                vals = [rnd.getrandbits(32) if trial else (0x01020304 * (j + 1)) & 0xffffffff for j in range(nin)]
+                env = {}
+                for j, w_ in enumerate(inputs):
+                    for b in range(32):
+                        (m_,) = w_.bits[b]
+                        (a_,) = m_
+                        env[a_] = (vals[j] >> b) & 1
+                memo = {}
+                try:
+                    gv = [c.evaluate(got[i], env, memo) for i in range(8)]
+                    wv = [c.evaluate(want[i], env, memo) for i in range(8)]
+                except (ValueError, KeyError, RecursionError):
+                    break
+                if gv != wv:
+                    witness = (vals, gv, wv)
+                    break
+            if witness is None:
+                ctx.violation("UNANALYSABLE|%s" % key, loc, "%s: the canonical form of the implementation differs from the reference's in %d digest words, but the two formulas agree on all sampled inputs: the difference may be one of representation (materialisation points) only; not decided" % (key, len(bad)))
+                continue
+            vals, gv, wv = witness
+            ctx.violation("hash-differs|%s" % key, loc, "%s does not compute %s: for the input words %s the implementation's formula yields %s, the reference %s" % (key, what, ["0x%08x" % v for v in vals][:16], ["0x%08x" % v for v in gv], ["0x%08x" % v for v in wv]))
+            continue
+        if bad:
+            i = bad[0]
+            detail = ""
+            if isinstance(got[i], bvexec.BV):
+                db = [b for b in range(32) if got[i].bits[b] != want[i].bits[b]]
+                detail = "; digest word %d differs in %d bit position(s), first at bit %d (implementation: %d monomials, reference: %d)" % (i, len(db), db[0], len(got[i].bits[db[0]]), len(want[i].bits[db[0]]))
+            ctx.violation("hash-differs|%s" % key, loc, "%s does not compute %s: %d of the 8 digest words differ from the reference definition as symbolic functions of the input%s" % (key, what, len(bad), detail))
+        elif not rest_ok:
+            ctx.violation("hash-stack-effect|%s" % key, loc, "%s does not leave the stack below the digest untouched" % key)
+    ctx.floor("hash-procedures-equal-to-reference", n_ok, 5)
+
+
 def run(ctx, F):
     ctx.trusted += ["vlib/masm.py parser; stack effects from docs/src/user_docs/assembly (validated against the assembler and handlers by C05) and C05's data-movement table"]
     ctx.assumptions += ["equality of the digests with the reference hash functions is NOT decided (numerical); decided is the history independence of procedure-local memory, a necessary condition of it",
                         "accesses through addresses the analysis cannot resolve are counted in the evidence and not judged"]
+    ctx.run_rule("C17-R2", "sha256::hash_2to1/hash_1to1, blake3::hash_2to1/hash_1to1, keccak256::hash: bit-level symbolic execution (ANF over GF(2), additions as hash-consed nodes) yields exactly the canonical form of the reference definition (FIPS 180-4, BLAKE3 spec, Keccak) on symbolic inputs", r2_reference, F)
     ctx.run_rule("C17-R1", "no hash procedure reads a procedure local (directly or through locaddr-derived addresses, across exec) before writing it in the same activation", r1_locals, F)
